@@ -30,5 +30,13 @@ theorem fp_lock_manager_Manager_Lock : Facts.fp_lock_manager_Manager_Lock = "b3a
 theorem fp_lock_manager_Manager_TryLock : Facts.fp_lock_manager_Manager_TryLock = "3c861dc7cc9f73de" := rfl
 /-- lock/manager.go: Manager.Unlock -/
 theorem fp_lock_manager_Manager_Unlock : Facts.fp_lock_manager_Manager_Unlock = "e1e8415d8eb20442" := rfl
+/-- server/server.go: LockServer.CreateSession -/
+theorem fp_server_server_LockServer_CreateSession : Facts.fp_server_server_LockServer_CreateSession = "a5cc599441e28bb4" := rfl
+/-- server/server.go: LockServer.DestroySession -/
+theorem fp_server_server_LockServer_DestroySession : Facts.fp_server_server_LockServer_DestroySession = "8239f3a4034818b5" := rfl
+/-- server/server.go: LockServer.SessionId -/
+theorem fp_server_server_LockServer_SessionId : Facts.fp_server_server_LockServer_SessionId = "e573c920d6f35761" := rfl
+/-- server/server.go: LockServer.SetShuttingDown -/
+theorem fp_server_server_LockServer_SetShuttingDown : Facts.fp_server_server_LockServer_SetShuttingDown = "54b9721d804e9da3" := rfl
 
 end Ldlm.Pins.FP.C05
